@@ -1122,3 +1122,56 @@ def c18(X, family, repl, where, sizes):
 
 
 ORACLES.update({"c18": c18})
+
+
+# ------------------------------------------------------------------ C17
+def _plain(v):
+    if hasattr(v, "_fields") and hasattr(v, "string"):
+        return ("tok", v.string)
+    if isinstance(v, (list, tuple)):
+        return type(v).__name__, [_plain(x) for x in v]
+    return v
+
+
+def c17(X, grammar_data, w, repo="/repo"):
+    """generate a parser for the grammar with the working tree's generator and compare it with the reference PEG interpreter on the token string w"""
+    import os
+    here = os.path.dirname(os.path.abspath(__file__))
+    if os.path.dirname(here) not in sys.path:
+        sys.path.insert(0, os.path.dirname(here))
+    import importlib.util
+    spec = importlib.util.spec_from_file_location("symx_pegref", os.path.join(here, "pegref.py"))
+    pegref = importlib.util.module_from_spec(spec)
+    spec.loader.exec_module(pegref)
+    g = pegref.from_data(grammar_data)
+    text = pegref.render(g)
+    src = pegref.generate(text, repo)
+    ns = {"__name__": "c17_generated"}
+    exec(compile(src, "<generated>", "exec"), ns)
+    cls = ns["GeneratedParser"]
+    T = X.tokenize
+    toks = []
+    col = 0
+    for s_ in w.split():
+        typ = T.Token.NUMBER if s_.isdigit() else T.Token.NAME
+        toks.append(T.TokenInfo(typ, s_, (1, col), (1, col + len(s_)), w + "\n"))
+        col += len(s_) + 1
+    toks.append(T.TokenInfo(T.Token.NEWLINE, "\n", (1, col), (1, col + 1), w + "\n"))
+    toks.append(T.TokenInfo(T.Token.ENDMARKER, "", (2, 0), (2, 0), ""))
+    p = cls(X.tokenizer.Tokenizer(iter(toks)))
+    try:
+        v = p.top()
+        got = ("ok", _plain(v), int(p._mark())) if v else (("fail",) if int(p._mark()) == 0 else ("fail-without-reset", int(p._mark())))
+    except SyntaxError:
+        got = ("raise",)
+    except Exception as e:  # noqa: BLE001
+        got = ("EXC:" + type(e).__name__, str(e)[:80])
+    ref = pegref.Interp(g, toks, T).run("top")
+    rn = (ref[0],) + ((_plain(ref[1]), ref[2]) if ref[0] == "ok" else ())
+    if got != rn:
+        return {"kind": "generated-parser-differs-from-PEG-semantics", "observed": repr(got)[:200], "expected": repr(rn)[:200], "input": w,
+                "grammar": text[len(pegref.HEADER):]}
+    return None
+
+
+ORACLES.update({"c17": c17})
